@@ -77,7 +77,7 @@ static void vc_PR(dvector *yt, dvector *yp, matrix *pr, double *ap)
 #define log vc_fn
 #define exp vc_fn
 #define sqrt vc_fn
-#include "/repo/src/lda.c"
+#include "lda.c"
 #undef log
 #undef exp
 #undef sqrt
